@@ -164,3 +164,111 @@ func c03ImportantTrivia(c *core.Check) {
 	r := c.Rule("R14", "!important survives comments: in css/parser.parseDeclaration, which sets the importance of a declaration, every switch with a case for the white-space token has a case for the comment token, and every condition that excludes white space excludes comments", 1)
 	triviaRule(c, r, "parseDeclaration")
 }
+
+// c03NestedListOwnFlags (R15): the selectors of a nested rule's list are relative to the parent each on its own:
+// `& .a, span` is `:is(parent) .a, :is(parent) span`.  PreprocessDeclarationsPrelude decides per selector whether it
+// holds an `&` (then the `&` is replaced) or not (then the parent is prefixed); that decision is taken afresh for
+// each selector: no boolean tested inside the loop over the comma-separated parts is carried around that loop (a
+// flag declared before the loop stays true after the first `&`, and the later selectors lose the parent: a bare
+// `span` matches every span of the document, with a lower specificity).
+func c03NestedListOwnFlags(c *core.Check) {
+	p := c.Prog
+	r := c.Rule("R15", "each selector of a nested list on its own: in css/validation.PreprocessDeclarationsPrelude no boolean tested inside the loop over the results of SplitOnComma is a value carried from one iteration of that loop to the next", 1)
+	fn := p.Fn("css/validation", "PreprocessDeclarationsPrelude")
+	if fn == nil {
+		r.Anchor("css/validation.PreprocessDeclarationsPrelude")
+		return
+	}
+	key := "css/validation.PreprocessDeclarationsPrelude | flags of the loop over the selectors"
+	// the loop that ranges over SplitOnComma(...)
+	var loop *core.Loop
+	for _, l := range core.Loops(fn) {
+		for _, in := range l.Header.Instrs {
+			// rangeindex loops compare the index with len(list)
+			if b, ok := in.(*ssa.BinOp); ok {
+				if call, ok := b.Y.(*ssa.Call); ok {
+					if bi, ok := call.Call.Value.(*ssa.Builtin); ok && bi.Name() == "len" && core.DerivesFrom(call.Call.Args[0], core.IsCallNamed("SplitOnComma")) {
+						loop = l
+					}
+				}
+			}
+		}
+		// or the length is computed before the loop
+		if loop == nil {
+			for _, pred := range l.Header.Preds {
+				if l.Blocks[pred] {
+					continue
+				}
+				for _, in := range pred.Instrs {
+					if call, ok := in.(*ssa.Call); ok {
+						if bi, ok := call.Call.Value.(*ssa.Builtin); ok && bi.Name() == "len" && core.DerivesFrom(call.Call.Args[0], core.IsCallNamed("SplitOnComma")) {
+							for _, hin := range l.Header.Instrs {
+								if b, ok := hin.(*ssa.BinOp); ok && b.Y == ssa.Value(call) {
+									loop = l
+								}
+							}
+						}
+					}
+				}
+			}
+		}
+	}
+	if loop == nil {
+		r.Unknown(key, p.Pos(fn.Pos()), "the loop over the results of SplitOnComma was not found")
+		return
+	}
+	carried := func(v ssa.Value) bool {
+		seen := map[ssa.Value]bool{}
+		var walk func(ssa.Value) bool
+		walk = func(v ssa.Value) bool {
+			if seen[v] {
+				return false
+			}
+			seen[v] = true
+			if u, ok := v.(*ssa.UnOp); ok && u.Op == token.NOT {
+				return walk(u.X)
+			}
+			phi, ok := v.(*ssa.Phi)
+			if !ok {
+				return false
+			}
+			if phi.Block() == loop.Header {
+				for i, pred := range phi.Block().Preds {
+					if loop.Blocks[pred] {
+						if _, isK := phi.Edges[i].(*ssa.Const); !isK {
+							return true
+						}
+					}
+				}
+			}
+			for _, e := range phi.Edges {
+				if walk(e) {
+					return true
+				}
+			}
+			return false
+		}
+		return walk(v)
+	}
+	n, bad := 0, ""
+	for b := range loop.Blocks {
+		if len(b.Instrs) == 0 {
+			continue
+		}
+		ifi, ok := b.Instrs[len(b.Instrs)-1].(*ssa.If)
+		if !ok {
+			continue
+		}
+		if bt, ok := ifi.Cond.Type().Underlying().(*types.Basic); !ok || bt.Kind() != types.Bool {
+			continue
+		}
+		n++
+		if carried(ifi.Cond) {
+			bad = p.Pos(ifi.Pos())
+			if bad == "-" || bad == "" {
+				bad = fmt.Sprintf("block %d", b.Index)
+			}
+		}
+	}
+	r.Cond(bad == "", key, p.Pos(fn.Pos()), fmt.Sprintf("%d tests inside the loop, none on a value carried around it", n), "the test at "+bad+" is on a boolean carried from the previous selector of the list: once a selector holds `&` the following ones are handled as if they did")
+}
